@@ -91,7 +91,7 @@ def run(c) -> CaseResult:
 
 CHECK = Check(
     id="C12",
-    parts=[Part("adam-step", run, strategy=cases, budget={"quick": 600, "thorough": 12000})],
+    parts=[Part("adam-step", run, strategy=cases, budget={"quick": 1600, "thorough": 100000})],
     rule=("Hypothesis: layer in {Linear, LinearReadout, Conv1d with input length = kernel size}, fan_in/fan_out in [1,4096] (product "
           "<= 2^20), kernel 1-9, depth None or 1..64 (layer first in a DepthSequential / DepthModuleList padded with layers that get no gradient, or one weight-shared instance repeated depth times), eta "
           "log-uniform in [1e-4,1], +-1 inputs, upstream gradient magnitudes in [1e-3,1e3] with random signs, library Adam/AdamW with "
